@@ -41,7 +41,8 @@ static inline hh_u32 hh_rol32(hh_u32 w, unsigned s)
 
 /*
  * The transforms are given as statement macros (HH_*_RUN) and used twice each: in a state-to-state function (hh_tea,
- * hh_md4, hh_word — composed by hh_step / hh_dirhash) and in a SINGLE-LEVEL predicate (hh_*_holds) for contract clauses
+ * hh_md4, hh_word — composed by hh_step / hh_dirhash) and in a SINGLE-LEVEL value function / pure expression (hh_tea_word,
+ * hh_md4_word, HH_WORD) for contract clauses
  * (the contract instrumentation does not support function calls nested inside a function called from a clause).
  */
 
@@ -59,21 +60,32 @@ static inline hh_u32 hh_rol32(hh_u32 w, unsigned s)
 		} \
 	} while (0)
 
-static inline struct hh_state hh_tea(struct hh_state s, const hh_u32 k[4])
-{
-	hh_u32 y = s.b[0], z = s.b[1];
-	HH_TEA_RUN(y, z, k);
-	s.b[0] += y;
-	s.b[1] += z;
-	return s;
-}
-
-/* (n0, n1) is the kernel's TEA_transform of (o0, o1) under key k */
-static inline int hh_tea_holds(hh_u32 o0, hh_u32 o1, const hh_u32 *k, hh_u32 n0, hh_u32 n1)
+/* word i (0 or 1) of buf after the kernel's TEA_transform of (o0, o1, ., .) under key k — single-level, for contract clauses */
+static inline hh_u32 hh_tea_word(hh_u32 o0, hh_u32 o1, const hh_u32 *k, int i)
 {
 	hh_u32 y = o0, z = o1;
 	HH_TEA_RUN(y, z, k);
-	return n0 == o0 + y && n1 == o1 + z;
+	return i == 0 ? o0 + y : o1 + z;
+}
+
+/*
+ * HH_TEA_WORD / HH_MD4_WORD: the compression functions as used by the composed specification (hh_step, hh_dirhash).
+ * A unit that proves the composition for an ARBITRARY compression function (parametric proof: the real helper is replaced
+ * by a contract naming the same function symbol) defines them as uninterpreted functions before including this header.
+ */
+#ifndef HH_TEA_WORD
+#define HH_TEA_WORD(o0, o1, k, i) hh_tea_word(o0, o1, k, i)
+#endif
+#ifndef HH_MD4_WORD
+#define HH_MD4_WORD(o0, o1, o2, o3, in, i) hh_md4_word(o0, o1, o2, o3, in, i)
+#endif
+
+static inline struct hh_state hh_tea(struct hh_state s, const hh_u32 k[4])
+{
+	hh_u32 o0 = s.b[0], o1 = s.b[1];
+	s.b[0] = HH_TEA_WORD(o0, o1, k, 0);
+	s.b[1] = HH_TEA_WORD(o0, o1, k, 1);
+	return s;
 }
 
 /*
@@ -105,22 +117,23 @@ static inline int hh_tea_holds(hh_u32 o0, hh_u32 o1, const hh_u32 *k, hh_u32 n0,
 			} \
 	} while (0)
 
-static inline struct hh_state hh_md4(struct hh_state s, const hh_u32 in[8])
-{
-	hh_u32 v[4];
-	v[0] = s.b[0]; v[1] = s.b[1]; v[2] = s.b[2]; v[3] = s.b[3];
-	HH_MD4_RUN(v, in);
-	s.b[0] += v[0]; s.b[1] += v[1]; s.b[2] += v[2]; s.b[3] += v[3];
-	return s;
-}
-
-/* n[0..3] is the kernel's half_md4_transform of (o0..o3) with message in[0..7] */
-static inline int hh_md4_holds(hh_u32 o0, hh_u32 o1, hh_u32 o2, hh_u32 o3, const hh_u32 *in, const hh_u32 *n)
+/* word i (0..3) of buf after the kernel's half_md4_transform of (o0..o3) with message in[0..7] — single-level, for contract clauses */
+static inline hh_u32 hh_md4_word(hh_u32 o0, hh_u32 o1, hh_u32 o2, hh_u32 o3, const hh_u32 *in, int i)
 {
 	hh_u32 v[4];
 	v[0] = o0; v[1] = o1; v[2] = o2; v[3] = o3;
 	HH_MD4_RUN(v, in);
-	return n[0] == o0 + v[0] && n[1] == o1 + v[1] && n[2] == o2 + v[2] && n[3] == o3 + v[3];
+	return i == 0 ? o0 + v[0] : i == 1 ? o1 + v[1] : i == 2 ? o2 + v[2] : o3 + v[3];
+}
+
+static inline struct hh_state hh_md4(struct hh_state s, const hh_u32 in[8])
+{
+	hh_u32 o0 = s.b[0], o1 = s.b[1], o2 = s.b[2], o3 = s.b[3];
+	s.b[0] = HH_MD4_WORD(o0, o1, o2, o3, in, 0);
+	s.b[1] = HH_MD4_WORD(o0, o1, o2, o3, in, 1);
+	s.b[2] = HH_MD4_WORD(o0, o1, o2, o3, in, 2);
+	s.b[3] = HH_MD4_WORD(o0, o1, o2, o3, in, 3);
+	return s;
 }
 
 /* one name byte as the kernel reads it: `(int) *ucp` resp. `(int) *scp` — value of the byte as unsigned / signed char */
@@ -161,32 +174,18 @@ static inline hh_u32 hh_legacy(const unsigned char *name, int len, int unsigned_
  *   words behind the end of the name are pad.
  */
 #define HH_PAD(len) (((hh_u32)(len) | ((hh_u32)(len) << 8)) | (((hh_u32)(len) | ((hh_u32)(len) << 8)) << 16))
-#define HH_WORD_RUN(val, msg, len, num, w, unsigned_variant) do { \
-		int lim_ = (len) > (num) * 4 ? (num) * 4 : (len); \
-		(val) = HH_PAD(len); \
-		for (int k_ = 0; k_ < 4; k_++) \
-			if (4 * (w) + k_ < lim_) \
-				(val) = (hh_u32)HH_CHAR(msg, 4 * (w) + k_, unsigned_variant) + ((val) << 8); \
-	} while (0)
+#define HH_LIM(len, num) ((len) > (num) * 4 ? (num) * 4 : (len))
+/* val after taking in byte number idx of msg, if that byte belongs to the chunk */
+#define HH_TAKE(val, msg, idx, len, num, uns) \
+	((idx) < HH_LIM(len, num) ? (hh_u32)HH_CHAR(msg, idx, uns) + ((val) << 8) : (val))
+/* output word w as a PURE EXPRESSION (usable directly in a contract clause) */
+#define HH_WORD(msg, len, num, w, uns) \
+	HH_TAKE(HH_TAKE(HH_TAKE(HH_TAKE(HH_PAD(len), msg, 4 * (w), len, num, uns), msg, 4 * (w) + 1, len, num, uns), \
+			msg, 4 * (w) + 2, len, num, uns), msg, 4 * (w) + 3, len, num, uns)
 
 static inline hh_u32 hh_word(const unsigned char *msg, int len, int num, int w, int unsigned_variant)
 {
-	hh_u32 val;
-	HH_WORD_RUN(val, msg, len, num, w, unsigned_variant);
-	return val;
-}
-
-/* buf[0..num) are the words the kernel's str2hashbuf produces (num <= 8) */
-static inline int hh_words_hold(const unsigned char *msg, int len, int num, int unsigned_variant, const hh_u32 *buf)
-{
-	_Bool ok = 1;	/* a plain conjunction of word equalities (no branching): back ends substitute these directly */
-	for (int w = 0; w < 8; w++)
-		if (w < num) {
-			hh_u32 val;
-			HH_WORD_RUN(val, msg, len, num, w, unsigned_variant);
-			ok = ok & (buf[w] == val);
-		}
-	return ok;
+	return HH_WORD(msg, len, num, w, unsigned_variant);
 }
 
 /* kernel __ext4fs_dirhash(), tail: "hash = hash & ~1; if (hash == (EXT4_HTREE_EOF_32BIT << 1)) hash = (EXT4_HTREE_EOF_32BIT - 1) << 1;" */
@@ -213,11 +212,11 @@ static inline struct hh_state hh_step(struct hh_state s, int version, const unsi
 	int uns = version >= HH_LEGACY_UNSIGNED;
 	if (version == HH_HALF_MD4 || version == HH_HALF_MD4_UNSIGNED) {
 		for (int w = 0; w < 8; w++)
-			in[w] = hh_word(p, len, 8, w, uns);
+			in[w] = HH_WORD(p, len, 8, w, uns);
 		return hh_md4(s, in);
 	}
 	for (int w = 0; w < 4; w++)
-		in[w] = hh_word(p, len, 4, w, uns);
+		in[w] = HH_WORD(p, len, 4, w, uns);
 	return hh_tea(s, in);
 }
 
